@@ -268,8 +268,10 @@ def rich_history(rng: random.Random, version: str | None, length: int) -> list[l
             steps.append(["clock", rng.choice([1, 61, 301, 601, 3601, 7201, 86401, 90000])])  # time passes
         elif roll < 0.94:
             steps.append(["forget", rng.choice([1, 2, 7])])  # the application removes a node from the registry
+        elif roll < 0.944:
+            steps.append(["rebind"])
         elif roll < 0.95:
-            steps.append(["reenter"])
+            steps.append(["reenter", "transport-error"] if rng.random() < 0.5 else ["reenter"])
         elif roll < 0.97:
             text = rng.choice(["2.0.0", "2.1.1", "2.2.0", "1.5.0"])
             steps.append(["rx", f"0;255;3;0;2;{text}\n"])
